@@ -264,8 +264,8 @@ class Impl:
                 s2.trace.append(["meas", q_address, outcome])
                 return outcome
 
-            def _allocate_physical_qubit(s2, subroutine_id, virtual_address, physical_address=None):
-                r = super()._allocate_physical_qubit(subroutine_id, virtual_address, physical_address)
+            def _allocate_physical_qubit(s2, subroutine_id, virtual_address, physical_address=None, *a, **k):
+                r = super()._allocate_physical_qubit(subroutine_id, virtual_address, physical_address, *a, **k)
                 s2.trace.append(["alloc", virtual_address])
                 return r
 
